@@ -27,7 +27,7 @@ ASSUMPTIONS = ["a 'step' of the log is one flush of the reporter (block of stati
                "log_sim_config is the shipped default (everything) in two thirds of the runs and a generated subset in the rest; a record type that is not selected is reconciled from the reports the harness' own handler captured", "PYTHONHASHSEED pinned to 0"]
 FLOORS = {"quick": {"log_lines": 14000, "flag:pickup": 28, "flag:charge": 30, "flag:two_charging_one_station": 5}, "thorough": {"log_lines": 500000}}
 
-PROFILE = profile(nv=(2, 6), n_requests=(10, 60), builtin=[True], n_scripted=[1], socs=[0.05, 0.1, 0.12, 0.3, 0.8, 0.97], prices_always=True,
+PROFILE = profile(nv=(2, 6), n_requests=(10, 60), builtin=[True], n_scripted=[1], socs=[0.05, 0.1, 0.12, 0.3, 0.8, 0.97, 1.0, 1.0], prices_always=True,
                   mechs=["leaf_50", "leaf_50", "tiny_bev", "toyota_corolla", "tiny_ice"], max_plugs=2, timeouts=[120, 300, 600], fleets=[0, 0, 2])
 DOC_KEYS = {
     "add_request_event": ["request_id", "departure_time"],
@@ -51,7 +51,34 @@ def st_case(draw) -> Dict[str, Any]:
     # which report types the user wants in event.log is configuration (log_sim_config in .hive.yaml; default: all)
     if draw(st.sampled_from([False, False, True])):
         w["log_types"] = sorted(draw(st.sets(st.sampled_from(LOGGABLE), min_size=1)) | draw(st.sampled_from([set(), {"station_load_event"}])))
-    return {"world": w, "nsteps": draw(st.integers(20, 120)), "window": draw(st.integers(1, 15)), "det": draw(st.booleans())}
+    return {"world": w, "nsteps": draw(st.integers(20, 120)), "window": draw(st.integers(1, 15)), "det": draw(st.booleans()),
+            # a clumsy controller as well: now and then it sends a vehicle to a plug its powertrain cannot use (the vehicle then
+            # waits there and its update is refused step after step), so that refused vehicle updates occur in the run
+            "clumsy": draw(st.booleans()) and w["dispatcher"].get("charging_search_type") != "shortest_time_to_charge"}
+
+
+def _clumsy_controller():
+    from nrel.hive.dispatcher.instruction import instructions as I
+    from nrel.hive.dispatcher.instruction_generator.instruction_generator import InstructionGenerator
+
+    class ClumsyController(InstructionGenerator):
+        """deterministic and stateless: every 9th step one idle vehicle is sent to a plug of the wrong energy type"""
+
+        def generate_instructions(self, sim, env):
+            k = int(sim.sim_time) // int(sim.sim_timestep_duration_seconds)
+            out = []
+            vs = sorted(v.id for v in sim.vehicles.values() if type(v.vehicle_state).__name__ == "Idle")
+            if k % 9 == 2 and vs:
+                v = sim.vehicles[vs[-1 - (k // 9) % len(vs)]]  # from the end of the id order
+                mech = env.mechatronics.get(v.mechatronics_id)
+                for sid in sorted(sim.stations.keys()):
+                    wrong = [c for c in sorted(sim.stations[sid].state.keys()) if mech is not None and not mech.valid_charger(sim.stations[sid].state[c].charger)]
+                    if wrong:
+                        out.append(I.DispatchStationInstruction(v.id, sid, wrong[0]))
+                        break
+            return self, tuple(out)
+
+    return ClumsyController()
 
 
 def _seconds(text: str) -> float:
@@ -86,7 +113,7 @@ def check_case(case: Dict[str, Any]) -> Tuple[List[Violation], Set[str], Dict[st
             from nrel.hive.runner import runner_payload_ops as rpo
 
             cfg = rp.e.config.dispatcher
-            rp = rpo.set_instruction_generators(rp, (Dispatcher(cfg), ChargingFleetManager(cfg), _det_controller()))
+            rp = rpo.set_instruction_generators(rp, (Dispatcher(cfg), ChargingFleetManager(cfg), _det_controller()) + ((_clumsy_controller(),) if case.get("clumsy") else ()))
         cap = _mk_capture()()
         rp.e.reporter.add_handler(cap)
         ch = VehicleChargeEventsHandler()  # what hive_cosim.load_scenario registers for co-simulation users
@@ -281,7 +308,7 @@ def nshards(tier):
 
 def shard(tier, seed, idx) -> ShardResult:
     res = ShardResult()
-    comp.run(PROP, st_case(), check_case, lambda f: "all_event_types" in f, res, cases=25 if tier == "quick" else 1000, seed=seed * 1000 + idx,
+    comp.run(PROP, st_case(), check_case, lambda f: "all_event_types" in f, res, cases=60 if tier == "quick" else 1500, seed=seed * 1000 + idx,
              kind="component", sample_fn=lambda c: {"world": world_summary(c["world"]), "nsteps": c["nsteps"], "window": c["window"], "det": c["det"]})
     return res
 
